@@ -236,6 +236,11 @@ class Analyzer:
         self._made_tag = False
 
     # ---- helpers -------------------------------------------------------------------------------
+    # optional: an explicit panic reached under a branch on input stays input-controlled across nested untainted branches, until the
+    # branches join (post-dominator). Off by default: with it, every assertion on AIR-defined values that merely sits behind a parsing
+    # decision would need the AIR-side invariant that makes it true.
+    sticky_control = False
+
     def fresh(self, kind, fn, b):
         """tag for a value that is new in this invocation of fn (same on every path of the invocation)"""
         self._made_tag = True
@@ -753,6 +758,67 @@ class _Frame:
 ITER_TY = re.compile(r"^(core::slice::iter::|core::iter::adapters::|alloc::vec::into_iter::|core::ops::range::Range)")
 
 
+def _ipdom(fn):
+    """immediate post-dominator of every block (None = the virtual exit), iterative algorithm on the reversed CFG"""
+    c = getattr(fn, "_ipdom_cache", None)
+    if c is not None:
+        return c
+    n = len(fn.blocks)
+    succ = fn.succ
+    EXIT = n
+    order = []
+    seen = set()
+    # post-order of the reversed graph from EXIT
+    preds_rev = {b: list(succ[b]) or [EXIT] for b in range(n)}     # edges b -> s ; blocks without successors go to EXIT
+    rsucc = {b: [] for b in range(n + 1)}
+    for b in range(n):
+        for s_ in preds_rev[b]:
+            rsucc[s_].append(b)
+    stack = [(EXIT, iter(rsucc[EXIT]))]
+    seen.add(EXIT)
+    while stack:
+        x, it = stack[-1]
+        for y in it:
+            if y not in seen:
+                seen.add(y)
+                stack.append((y, iter(rsucc[y])))
+                break
+        else:
+            order.append(x)
+            stack.pop()
+    idx = {x: i for i, x in enumerate(order)}
+    idom = {EXIT: EXIT}
+
+    def inter(a, b_):
+        while a != b_:
+            while idx[a] < idx[b_]:
+                a = idom[a]
+            while idx[b_] < idx[a]:
+                b_ = idom[b_]
+        return a
+    changed = True
+    while changed:
+        changed = False
+        for x in reversed(order):
+            if x == EXIT:
+                continue
+            ps = [p_ for p_ in preds_rev[x] if p_ in idom]
+            if not ps:
+                continue
+            new = ps[0]
+            for p_ in ps[1:]:
+                new = inter(new, p_)
+            if idom.get(x) != new:
+                idom[x] = new
+                changed = True
+    res = {b: (None if idom.get(b, EXIT) == EXIT else idom[b]) for b in range(n)}
+    try:
+        fn._ipdom_cache = res
+    except Exception:
+        pass
+    return res
+
+
 def _loops(fn):
     """back-edge targets and, per target, the set of locals assigned (or possibly mutated) in the loop"""
     color = {}
@@ -923,6 +989,17 @@ def _analyze(self, fn, args, chain=(), subst=None, facts=None):
             continue
         item = work.pop()
         b, st, tctrl, onpath = item[:4]
+        tcu = st.get("#tcu")
+        if tcu and not (len(item) > 4 and item[4]):
+            while tcu and tcu[-1] == b:
+                tcu = tcu[:-1]
+            if tcu != st.get("#tcu"):
+                st = dict(st)
+                if tcu:
+                    st["#tcu"] = tcu
+                else:
+                    st.pop("#tcu", None)
+                    tctrl = False
         start = item[4] if len(item) > 4 else 0
         steps += 1
         if steps > self.path_limit:
@@ -1153,9 +1230,12 @@ def _analyze(self, fn, args, chain=(), subst=None, facts=None):
             for tb, nst in outs_:
                 if ntc:
                     nst["#tc"] = True
+                    if self.sticky_control:
+                        # what follows is control-dependent on input until the branches join again
+                        nst["#tcu"] = (st.get("#tcu") or ()) + (_ipdom(fn).get(b),)
                 elif len(outs_) > 1:
                     nst["#sw"] = b
-                push(tb, nst, ntc)
+                push(tb, nst, (ntc or tctrl) if self.sticky_control else ntc)
         elif k == "assert":
             self._assert(fn, st, b, t, summ, chain2, tctrl)
             cl = op_local(t["cond"], pure=True)
